@@ -1,6 +1,6 @@
 (* Script.v — the op-script language shared by the API-level correspondence streams and by the
    theorems about histories (C09, C10, C16, C17): decoder from the case format and interpreter. *)
-From PyDBML Require Import PyStr Py Sx Heap Classes Database Show Tools RenderSQL RenderDBML.
+From PyDBML Require Import PyStr Py Sx Heap Classes Database Show Tools RenderSQL RenderDBML PP Actions Build Entry.
 Import ListNotations.
 
 (* ------------------------------------------------------------------ renderer classes *)
@@ -146,6 +146,7 @@ Inductive op :=
 | OTGetRefs (t : nat) | OCGetRefs (c : nat)
 | ORTable (side : N) (r : nat) | ORJoinTable (r : nat)
 | OSql (o : nat) | ODbml (o : nat) | ODump | OGetNote (o : nat) | OEq (a b : nat) | OColDatabase (c : nat)
+| OParse (route : N) (allow : bool) (sqlr dbmlr : nat) (text : pystr)
 | OBad.
 
 (* ------------------------------------------------------------------ decoding *)
@@ -223,6 +224,7 @@ Definition dec_op (x : sx) : op :=
       | 83, [o] => Some OGetNote <*> dec_nat o
       | 84, [a; b] => Some OEq <*> dec_nat a <*> dec_nat b
       | 85, [c] => Some OColDatabase <*> dec_nat c
+      | 90, [rt; al; sr; dr; tx] => Some OParse <*> dec_N rt <*> dec_bool al <*> dec_nat sr <*> dec_nat dr <*> dec_str tx
       | _, _ => None
       end%N
     | _ => None
@@ -728,6 +730,21 @@ Definition exec_op (rs : list rdef) (s : st) (o : op) : st * outcome :=
                    end
       | None => (s, OutSkip)
       end
+  | OParse route allow sqlr dbmlr text =>
+      (* routes: 0 PyDBML(str) 1 PyDBML.parse(str) 2 PyDBML(Path) 3 PyDBML(open file) 4 PyDBML().parse(str)
+                 5 parse_file(path str) 6 parse_file(Path) 7 parse_file(open file) 8 PyDBML(<other type>)
+         for the file routes [text] is the content as open(p, encoding='utf8').read() returns it *)
+      let fs := fun _ : pystr => Some text in
+      let m := match route with
+               | 0 => pydbml_new fs (SStr text) allow sqlr dbmlr
+               | 1 | 4 => pydbml_parse text allow sqlr dbmlr
+               | 2 => pydbml_new fs (SPath []) allow sqlr dbmlr
+               | 3 => pydbml_new fs (SFile text) allow sqlr dbmlr
+               | 5 | 6 => pydbml_parse_file fs (SPath [])
+               | 7 => pydbml_parse_file fs (SFile text)
+               | _ => pydbml_new fs SOther allow sqlr dbmlr
+               end%N in
+      run_M s m OutObj
   | OBad => (s, OutSkip)
   end.
 
